@@ -22,26 +22,27 @@ def outs(g, i):
     return sorted(b for a, b in g["edges"] if a == i)
 
 
-def realise_fb(g):
+def realise_fb(g, ref="N%d"):
+    """ref: how a reference to node j is spelled (names are case-insensitive: 'n3' is N3)"""
     t = ""
     for i in range(1, g["n"] + 1):
         t += "FUNCTION_BLOCK N%d\n  VAR\n" % i
         for j in outs(g, i):
-            t += "    e%d : N%d;\n" % (j, j)
+            t += "    e%d : %s;\n" % (j, ref % j)
         t += "    x : INT;\n  END_VAR\n  x := 1;\nEND_FUNCTION_BLOCK\n"
     return t
 
 
-def realise_struct(g, alias=False):
+def realise_struct(g, alias=False, ref="N%d"):
     t = ""
     for i in range(1, g["n"] + 1):
         o = outs(g, i)
         if alias and len(o) == 1:
-            t += "TYPE\n  N%d : N%d;\nEND_TYPE\n" % (i, o[0])
+            t += "TYPE\n  N%d : %s;\nEND_TYPE\n" % (i, ref % o[0])
             continue
         t += "TYPE\n  N%d : STRUCT\n" % i
         for j in o:
-            t += "    f%d : N%d;\n" % (j, j)
+            t += "    f%d : %s;\n" % (j, ref % j)
         t += "    v : INT;\n  END_STRUCT;\nEND_TYPE\n"
     return t
 
@@ -101,7 +102,8 @@ def main():
     cases, meta = [], []
     for g in graphs:
         reals = [("fb", realise_fb(g)), ("struct", realise_struct(g)), ("struct+alias", realise_struct(g, alias=True)),
-                 ("mixed-odd-fb", realise_mixed(g, 1)), ("mixed-even-fb", realise_mixed(g, 0))]
+                 ("mixed-odd-fb", realise_mixed(g, 1)), ("mixed-even-fb", realise_mixed(g, 0)),
+                 ("fb-lowercase-refs", realise_fb(g, ref="n%d")), ("struct+alias-lowercase-refs", realise_struct(g, alias=True, ref="n%d"))]
         if all(len(outs(g, i)) <= 1 for i in range(1, g["n"] + 1)):
             reals.append(("enum-alias", realise_enum_alias(g)))
         for kind, text in reals:
